@@ -81,6 +81,18 @@ Proof.
   simpl. now rewrite H.
 Qed.
 
+Lemma run_with_key_done pw t dp dd body w v w' :
+  run pw t body w = (ODone v, w') ->
+  run pw t (with_key dp dd body) w = (ODone v, if dd then set_keyf w' t false else w').
+Proof.
+  intros H. unfold with_key. rewrite run_bind. rewrite (run_catch_done _ _ _ _ _ _ _ H).
+  destruct dd; reflexivity.
+Qed.
+
+Lemma run_bind_done pw t m k w v w1 :
+  run pw t m w = (ODone v, w1) -> run pw t (Bind m k) w = run pw t (k v) w1.
+Proof. intros H. rewrite run_bind, H. reflexivity. Qed.
+
 (* ---------------------------------------------------------------- snapshots *)
 Lemma nth_snapshot_holds n w l : l < n -> nth l (snapshot_holds n w) raw_free = w_raw w l.
 Proof.
@@ -225,13 +237,14 @@ Section Steps.
     destruct (run_see_all_tr t (gpoisons (gitems s)) w1) as [w2 [R2 [E2 [evs [T2 F2]]]]].
     assert (P2 : forall p, w_psn w2 p = false).
     { intros p. rewrite (eff_psn _ _ _ E2), (eff_psn _ _ _ E1). apply P. }
-    assert (Rcall : run nopw t (Catch (raw_lock (e_fuel e) m (alg_of (e_am e) s)) keydrop ;;
-                                see_all (gpoisons (gitems s)) ;; poison_result s) w = (ODone (VNat 0), w2)).
-    { rewrite (run_then_done _ _ _ _ _ VUnit w1) by (apply (run_catch_done _ _ _ _ _ _ _ R1)).
+    assert (Rcall : run nopw t (with_key true false (raw_lock (e_fuel e) m (alg_of (e_am e) s) ;;
+                                see_all (gpoisons (gitems s)) ;; poison_result s)) w = (ODone (VNat 0), w2)).
+    { apply (run_with_key_done nopw t true false _ w (VNat 0) w2).
+      rewrite (run_then_done _ _ _ _ _ VUnit w1) by exact R1.
       rewrite (run_then_done _ _ _ _ _ _ _ R2). now apply run_poison_result. }
     assert (Hprog : api_prog e (h_loc h t) (AAcquire c m FGuard) =
-              Some (Catch (raw_lock (e_fuel e) m (alg_of (e_am e) s)) keydrop ;;
-                    see_all (gpoisons (gitems s)) ;; poison_result s)).
+              Some (with_key true false (raw_lock (e_fuel e) m (alg_of (e_am e) s) ;;
+                    see_all (gpoisons (gitems s)) ;; poison_result s))).
     { cbn [api_prog]. rewrite Hc, Hk. reflexivity. }
     exists w2. split; [|split].
     - rewrite (hstep_some e nl np h t _ _ _ _ Hs Hprog Rcall). cbn [api_fin]. rewrite Hc. reflexivity.
@@ -255,10 +268,10 @@ Section Steps.
   Proof.
     intros [Hs [Q P]] Hg ND H.
     destruct (run_drop_items t m items (clear_trace (h_w h)) (quiet_clear _ Q) ND H) as [w' [R E]].
-    assert (Hprog : api_prog e (h_loc h t) AGuardUnlock = Some (Catch (drop_items m false items) keydrop)).
+    assert (Hprog : api_prog e (h_loc h t) AGuardUnlock = Some (with_key true false (drop_items m false items))).
     { cbn [api_prog]. rewrite Hg. reflexivity. }
     exists w'. split; [|exact E].
-    rewrite (hstep_some e nl np h t _ _ _ _ Hs Hprog (run_catch_done _ _ _ _ _ _ _ R)). reflexivity.
+    rewrite (hstep_some e nl np h t _ _ _ _ Hs Hprog (run_with_key_done nopw t true false _ _ _ _ R)). reflexivity.
   Qed.
 
   (* drop(guard) *)
@@ -273,11 +286,9 @@ Section Steps.
   Proof.
     intros [Hs [Q P]] Hg ND H.
     destruct (run_drop_items t m items (clear_trace (h_w h)) (quiet_clear _ Q) ND H) as [w' [R E]].
-    assert (Hprog : api_prog e (h_loc h t) AGuardDrop = Some (Catch (drop_items m false items) keydrop ;; keydrop)).
+    assert (Hprog : api_prog e (h_loc h t) AGuardDrop = Some (with_key true true (drop_items m false items))).
     { cbn [api_prog]. rewrite Hg. reflexivity. }
-    assert (Rc : run nopw t (Catch (drop_items m false items) keydrop ;; keydrop) (clear_trace (h_w h)) =
-                 (ODone VUnit, set_keyf w' t false)).
-    { rewrite (run_then_done _ _ _ _ _ VUnit w'); [reflexivity|]. apply (run_catch_done _ _ _ _ _ _ _ R). }
+    pose proof (run_with_key_done nopw t true true _ _ _ _ R) as Rc. cbn iota in Rc.
     exists w'. split; [|exact E].
     rewrite (hstep_some e nl np h t _ _ _ _ Hs Hprog Rc). cbn [api_fin fst snd stops].
     cbn [set_keyf w_trace w_keyf]. rewrite upd_same. reflexivity.
